@@ -63,6 +63,25 @@ def switch_complete(sx):
         gc.ConfigChange = saved_cc
 
 
+class _DoneFuture:
+    """stands in for the shared ConfigChange future where no loop runs: already completed"""
+
+    def done(self):
+        return True
+
+    def set_result(self, v):
+        pass
+
+
+def _effective_mode():
+    """True/False when the complete active/idle table is installed, None for anything else"""
+    import geckolib.config as gc
+    for active, cls in ((True, gc._GeckoActiveConfig), (False, gc._GeckoIdleConfig)):
+        if all(getattr(gc.GeckoConfig, m) == getattr(cls, m) for m in gc.CONFIG_MEMBERS):
+            return active
+    return None
+
+
 def facade_selects(plat, c, l):
     def scenario(sx):
         import geckolib.automation.async_facade as af
@@ -78,13 +97,17 @@ def facade_selects(plat, c, l):
             v = sx.int_(f"state_{d.key}", 0, rec["mask"] if rec["bitpos"] is not None else (1 << (8 * rec["size"])) - 1)
             fe.set_item(items, a, v)
         spa.struct.set_status_block(fe.block_from_items(items))
-        calls = []
-        saved = af.set_config_mode
-        af.set_config_mode = lambda x: calls.append(x)
+        # the timing table is process-wide: whatever mode an earlier facade left behind, this one selects its own
+        import geckolib.config as gc
+        saved_cc = gc.ConfigChange
+        gc.ConfigChange = _DoneFuture()
         try:
+            gc.set_config_mode(bool(sx.choice("mode_left_behind_by_an_earlier_facade", 2)))
             f._on_config_device_change()
+            selected = _effective_mode()
         finally:
-            af.set_config_mode = saved
+            gc.set_config_mode(False)
+            gc.ConfigChange = saved_cc
         anyon = False
         for d in devs:
             a = d._accessor if hasattr(d, "_accessor") else d._state_sensor.accessor
@@ -95,9 +118,9 @@ def facade_selects(plat, c, l):
             else:
                 on = bool(r != rec["labels"].index("OFF")) if "OFF" in rec["labels"] else True
             anyon = anyon or on
-        sx.observe("calls", list(calls))
-        sx.check(len(calls) == 1, "dev.one-mode-selection")
-        sx.check(calls[0] == anyon, "dev.active-iff-some-pump-or-blower-on", lambda: f"{calls} vs {anyon}")
+        sx.observe("selected", selected)
+        sx.check(selected is not None, "dev.complete-table-installed")
+        sx.check(selected == anyon, "dev.active-iff-some-pump-or-blower-on", lambda: f"{selected} vs {anyon}")
         want = [x.key for x in list(f.pumps) + list(f.blowers)]
         sx.check([x.key for x in devs] == want, "dev.devices-are-pumps-and-blowers")
     return scenario
@@ -114,10 +137,11 @@ def facade_follows_updates(plat, c, l):
         if len(devs) < 2:
             sx.check(True, "dev.none")
             return
-        calls = []
-        saved = af.set_config_mode
-        af.set_config_mode = lambda x: calls.append(x)
+        import geckolib.config as gc
+        saved_cc = gc.ConfigChange
+        gc.ConfigChange = _DoneFuture()
         try:
+            gc.set_config_mode(bool(sx.choice("mode_left_behind_by_an_earlier_facade", 2)))
             # everything off to begin with, every state read once (as the facade's periodic update does)
             items = list(spa.struct.status_block)
             accs = []
@@ -130,6 +154,7 @@ def facade_follows_updates(plat, c, l):
             spa.struct.set_status_block(bytes(items))
             _ = [d.is_on for d in f.all_config_change_devices]
             f._on_config_device_change()
+            sx.check(_effective_mode() is False, "dev.idle-when-everything-is-off", lambda: str(_effective_mode()))
             state = {d.key: False for d, *_ in accs}
             for step in range(3):
                 d, a, rec, off = accs[sx.choice(f"device{step}", len(devs))]
@@ -137,15 +162,14 @@ def facade_follows_updates(plat, c, l):
                 on_val = 1 if rec["type"] == "Bool" else [i for i, s_ in enumerate(rec["labels"]) if s_ not in ("OFF", "")][0]
                 cur = list(spa.struct.status_block)
                 fe.set_item(cur, a, on_val if turn_on else off)
-                del calls[:]
                 spa.struct.replace_status_block_segment(a.pos, bytes(cur[a.pos:a.pos + a.length]))
                 state[d.key] = turn_on
-                sx.check(bool(calls), "dev.update-reaches-the-mode-selection", lambda: f"step {step} {d.key}")
-                if calls:
-                    sx.check(calls[-1] == any(state.values()), "dev.mode-follows-every-single-update",
-                             lambda: f"step {step}: {d.key} -> {turn_on}, selected {calls[-1]}, on: {state}")
+                sel = _effective_mode()
+                sx.check(sel == any(state.values()), "dev.mode-follows-every-single-update",
+                         lambda: f"step {step}: {d.key} -> {turn_on}, installed {sel}, on: {state}")
         finally:
-            af.set_config_mode = saved
+            gc.set_config_mode(False)
+            gc.ConfigChange = saved_cc
     return scenario
 
 
